@@ -23,7 +23,7 @@ var (
 	c13IPc   = netip.MustParseAddr("192.168.0.12")
 	c13Tgt   = []packet.Addr{{MAC: env.MAC1, IP: ip4a}, {MAC: env.MAC2, IP: ip4b}}
 	apiNames = []string{"StartHunt(t1)", "StartHunt(t2)", "StopHunt(t1)", "StopHunt(t2)", "Close", "StartHunt(t1 under another IP)", "StartHunt(t2 under t1's IP)"}
-	pktNames = []string{"req(t1->router)", "req(t1->other)", "req(t3->router)", "probe(m3,offer!=target)", "probe(m3,offer==target)", "probe(m3,offlan)", "probe(t2,nooffer)", "announce(t1)", "reply(t1)", "req(m3 with t1's ip->router)"}
+	pktNames = []string{"req(t1->router)", "req(t1->other)", "req(t3->router)", "probe(m3,offer!=target)", "probe(m3,offer==target)", "probe(m3,offlan)", "probe(t2,nooffer)", "announce(t1)", "reply(t1)", "req(m3 with t1's ip->router)", "announce(m3 claims the router's ip)"}
 )
 
 // huntEvent is one entry of the totally ordered per-execution log.
@@ -63,6 +63,10 @@ func c13Packet(k int) []byte {
 	case 9:
 		// a host that is NOT hunted asks for the router using the IP address of the hunted host t1
 		return refnet.Eth(bcast, env.MAC3, 0x0806, refnet.ARP(1, env.MAC3, ip4a, zero, ip4rtr))
+	case 10:
+		// a host that is NOT hunted announces itself under the ROUTER's address (misconfigured or hostile station): what
+		// the session tracks for that address must not change what StopHunt restores
+		return refnet.Eth(bcast, env.MAC3, 0x0806, refnet.ARP(1, env.MAC3, ip4rtr, bcast, ip4rtr))
 	}
 	return nil
 }
@@ -101,6 +105,8 @@ func c13Scenario(api []int, pkts []int) *concScenario {
 				return
 			}
 			s.SetDHCPv4IPOffer(env.MAC3, c13IPc, packet.NameEntry{}) // MAC3 holds an outstanding offer for c
+			parseNotify(s, frame4(env.MAC2, ip4b))                   // t2 is a known station with an address (and no outstanding offer)
+			conn.Take()
 			start := vsched.NowNanos()
 			x.data["start"] = start
 			threads(
@@ -419,7 +425,7 @@ func c13Scenarios(apiLen, pktLen int) []*concScenario {
 
 func c13Run(c *core.Ctx, args []string) {
 	c.Res.Level = "model_checking"
-	c.Res.Rule = "outer enumeration: every API history of length <=2 (thorough <=3) over {StartHunt(t1), StartHunt(t2), StopHunt(t1), StopHunt(t2), Close} on the caller thread x every packet sequence of length <=1 (thorough: <=2 for API length <=2) over 10 ARP packets (requests from hunted and non-hunted hosts, probes with/without/equal offers and off-LAN targets, announcement, reply) on the packet-loop thread; inner: stateless DFS over all schedules (threads, spoof loops, ticker firings in virtual time) up to the deviation bound (one more for the API histories of length <=2 without packets), followed by two spoof cycles, Close, and two more cycles. A linear-time monitor over the emitted ARP frames and the API call/return log checks confinement, probe-reject conditions, undo on StopHunt (corrective packet within one cycle, no forged packet afterwards), idempotent StartHunt and Close. distinct = distinct observation vectors"
+	c.Res.Rule = "outer enumeration: every API history of length <=2 (thorough <=3) over {StartHunt(t1), StartHunt(t2), StopHunt(t1), StopHunt(t2), Close} on the caller thread x every packet sequence of length <=1 (thorough: <=2 for API length <=2) over 11 ARP packets (requests from hunted and non-hunted hosts, probes with/without/equal offers and off-LAN targets, announcement, reply) on the packet-loop thread; inner: stateless DFS over all schedules (threads, spoof loops, ticker firings in virtual time) up to the deviation bound (one more for the API histories of length <=2 without packets), followed by two spoof cycles, Close, and two more cycles. A linear-time monitor over the emitted ARP frames and the API call/return log checks confinement, probe-reject conditions, undo on StopHunt (corrective packet within one cycle, no forged packet afterwards), idempotent StartHunt and Close. distinct = distinct observation vectors"
 	c.Res.Assumptions = []string{"one forged announcement per loop may still leave after StopHunt returned (the loop had passed its membership check): the property's 'no further' is read per loop cycle", "a StopHunt/StartHunt pair may leave two loops for one target (not constrained by the statement)", "time is virtual: 'within one cycle' is checked on the virtual clock"}
 	apiLen, pktLen, bound := 2, 1, 1
 	if c.Thorough() {
